@@ -51,7 +51,7 @@ def draw_value(t, part):
     if form == 1:
         return x
     if form == 2:
-        return ['\u00e9\x00\U0001f600', [b'in-list', [x, b'deeper']], {'b': b'\x00' + bytes([7]), 'n': [x, None]}]
+        return ['\u00e9\x00\U0001f600', [b'in-list', [x, b'deeper']], {'b': b'\x00' + bytes([7]), 'n': [x, None], 'f': 0.1}]
     if form == 3:
         return (x, 'two')
     return (b'raw', {'k': x}, [x])
@@ -101,7 +101,10 @@ def h(t, part):
     try:
         for k in range(n):
             event = EVENTS[t.choice(len(EVENTS) if ackmode == 'none' else 2)]
-            x = draw_value(t, part)
+            if k > 0 and part.get('reuse'):
+                x = sent[0][1]          # the application sends the very same object again
+            else:
+                x = draw_value(t, part)
             r = draw_value(t, part) if ackmode != 'none' else None
             rets.append(r)
             sent.append((event, x, r))
@@ -187,7 +190,7 @@ def parts(tier):
                     out.append({'async': a, 'serializer': ser, 'direction': d, 'ack': ack, 'n': 1})
                 # two consecutive messages: order; on asyncio also with handlers that suspend while the next arrives
                 out.append({'async': a, 'serializer': ser, 'direction': d, 'ack': 'none', 'n': 2, 'pump_each': False,
-                            'suspend': a})
+                            'suspend': a, 'reuse': True})
     return out
 
 
@@ -202,7 +205,7 @@ META = dict(
                 'type-strict structural equality.',
     bounds={'quick': 'one message per configuration {threaded, asyncio} x {default, msgpack} x {client->server, '
                      'server->client} x {no ack, callback, call()} x 3 event names x 5 payload forms (x 5 return forms), '
-                     'symbolic ints -3..3 as leaves, strings with non-ASCII, NUL and non-BMP characters; two consecutive messages without ack (on asyncio '
+                     'symbolic ints -3..3 as leaves, strings with non-ASCII, NUL and non-BMP characters; two consecutive messages without ack carrying the same payload object (on asyncio '
                      'with handlers that suspend while the next message arrives; engine.io\'s task-per-message is modelled)',
             'thorough': 'same'},
     outside=['base64/text framing of attachments (engine.io payload code)', 'concurrent emitters (documented unsupported)',
